@@ -25,6 +25,8 @@ import Mathlib.Tactic.SplitIfs
 
 set_option linter.unusedSimpArgs false
 set_option linter.unusedVariables false
+set_option linter.unreachableTactic false
+set_option linter.unusedTactic false
 
 namespace Pandora.C02KernelsMc
 open Pandora Pandora.MC Pandora.PyExpr Pandora.C02Kernels
@@ -46,6 +48,11 @@ theorem iRight_core (k : Int) (sp : Nat) (hs : 0 < sp) :
     field_simp
   rw [h, rtrunc_intCast]
 
+theorem iRight_core_comm (k : Int) (sp : Nat) (hs : 0 < sp) :
+    rtrunc ((((sp : Int)) : ℚ) * ((k : ℚ) / (sp : ℚ) - (((rfloor ((k : ℚ) / (sp : ℚ) / (1 : ℚ))) : Int) : ℚ) * (1 : ℚ)))
+      = k % (sp : Int) := by
+  rw [mul_comm]; exact iRight_core k sp hs
+
 theorem iRight_model (k : Int) (sp : Nat) (hs : 0 < sp) : ((MC.iRight k sp : Nat) : Int) = k % (sp : Int) := by
   unfold MC.iRight
   have : 0 ≤ k % (sp : Int) := Int.emod_nonneg k (by exact_mod_cast (Nat.pos_iff_ne_zero.mp hs))
@@ -53,15 +60,18 @@ theorem iRight_model (k : Int) (sp : Nat) (hs : 0 < sp) : ((MC.iRight k sp : Nat
 
 theorem iRightCensus_eq (k : Int) (sp : Nat) (hs : 0 < sp) :
     KernelsMc.iRightCensus ((k : ℚ) / (sp : ℚ)) (sp : Int) = ((MC.iRight k sp : Nat) : Int) := by
-  rw [iRight_model k sp hs]; unfold KernelsMc.iRightCensus; exact iRight_core k sp hs
+  rw [iRight_model k sp hs]; unfold KernelsMc.iRightCensus
+  first | exact iRight_core k sp hs | exact iRight_core_comm k sp hs
 
 theorem iRightSadSsd_eq (k : Int) (sp : Nat) (hs : 0 < sp) :
     KernelsMc.iRightSadSsd ((k : ℚ) / (sp : ℚ)) (sp : Int) = ((MC.iRight k sp : Nat) : Int) := by
-  rw [iRight_model k sp hs]; unfold KernelsMc.iRightSadSsd; exact iRight_core k sp hs
+  rw [iRight_model k sp hs]; unfold KernelsMc.iRightSadSsd
+  first | exact iRight_core k sp hs | exact iRight_core_comm k sp hs
 
 theorem iRightZncc_eq (k : Int) (sp : Nat) (hs : 0 < sp) :
     KernelsMc.iRightZncc ((k : ℚ) / (sp : ℚ)) (sp : Int) = ((MC.iRight k sp : Nat) : Int) := by
-  rw [iRight_model k sp hs]; unfold KernelsMc.iRightZncc; exact iRight_core k sp hs
+  rw [iRight_model k sp hs]; unfold KernelsMc.iRightZncc
+  first | exact iRight_core k sp hs | exact iRight_core_comm k sp hs
 
 /-- the index is inside the list of the `sp` shifted right images -/
 theorem iRight_lt (k : Int) (sp : Nat) (hs : 0 < sp) : MC.iRight k sp < sp := by
